@@ -209,7 +209,7 @@ Lemma Inv_ext : forall s s',
   (forall i, itab s' i = itab s i) -> (forall w, wtab s' w = wtab s w) -> frame s' = frame s ->
   Inv s -> Inv s'.
 Proof.
-  intros s s' Hi Hw Hf [H1 H2 H3 H4 H5 H6]. constructor.
+  intros s s' Hi Hw Hf [H1 H2 H3 H4 H5 H6 H7]. constructor.
   - intros i ir E. rewrite Hi in E. eauto.
   - intros i ir E. rewrite Hi in E. eauto.
   - intros i ir wd w E Hin. rewrite Hi in E. rewrite Hw. eauto.
@@ -217,6 +217,7 @@ Proof.
     exists ir. rewrite Hi. auto.
   - intros i ir E. rewrite Hi in E. rewrite Hf. eauto.
   - intros i E. rewrite Hf in E. rewrite Hi. eauto.
+  - intros i ir w E. rewrite Hi in E. eauto.
 Qed.
 
 Lemma Inv_init : Inv init.
@@ -265,6 +266,9 @@ Proof.
   - intros j F. destruct (Pos.eq_dec j i) as [->|n].
     + rewrite upd_same. discriminate.
     + rewrite upd_other by assumption. eapply inv_frame; eauto.
+  - intros j jr w E. destruct (Pos.eq_dec j i) as [->|n].
+    + rewrite upd_same in E. inversion E; subst. intros [].
+    + rewrite upd_other in E by assumption. eapply inv_wd; eauto.
 Qed.
 
 (* unregister instance: the frame's `this` is nulled when it is this instance *)
@@ -329,15 +333,18 @@ Proof.
   - intros j F. rewrite Tf in F. destruct (frame s) as [[k|]|] eqn:Fs; try discriminate.
     destruct (Pos.eqb_spec k i); [discriminate|]. inversion F; subst.
     rewrite upd_other by assumption. eapply inv_frame; eauto.
+  - intros j jr w E. destruct (Pos.eq_dec j i) as [->|n].
+    + rewrite upd_same in E. discriminate.
+    + rewrite upd_other in E by assumption. eapply inv_wd; eauto.
 Qed.
 
-(* register watch: the successful case *)
+(* register watch: the successful case (inotify_add_watch did not return -1) *)
 Lemma Inv_reg_watch : forall s w i ir wd m l, Inv s -> wtab s w = None -> itab s i = Some ir ->
-  tree_insert (i_watches ir) wd w = Some l ->
+  tree_insert (i_watches ir) wd w = Some l -> wd <> -1 ->
   Inv (set_inst (set_watch s w {| w_inst := i; w_wd := wd; w_mask := m |}) i
                 {| i_watches := l; i_term := i_term ir |}).
 Proof.
-  intros s w i ir wd m l H Hw Ei Hl.
+  intros s w i ir wd m l H Hw Ei Hl Hwd.
   assert (Hnotin : ~ In w (map snd (i_watches ir))) by (eapply inv_absent_not_in; eauto).
   constructor; cbn [set_inst set_watch set_itab set_wtab itab wtab frame].
   - intros j jr E. destruct (Pos.eq_dec j i) as [->|n].
@@ -373,6 +380,12 @@ Proof.
   - intros j F. destruct (Pos.eq_dec j i) as [->|n].
     + rewrite upd_same. discriminate.
     + rewrite upd_other by assumption. eapply inv_frame; eauto.
+  - intros j jr x E Hin. destruct (Pos.eq_dec j i) as [->|n].
+    + rewrite upd_same in E. inversion E; subst. cbn [i_watches] in Hin.
+      apply (tree_insert_in _ _ _ _ Hl) in Hin. destruct Hin as [Ex|Hin].
+      * inversion Ex. congruence.
+      * eapply inv_wd; eauto.
+    + rewrite upd_other in E by assumption. eapply inv_wd; eauto.
 Qed.
 
 (* a watch leaves the set of its instance and is freed: watch unregister, and the drop
@@ -413,6 +426,33 @@ Proof.
   - intros j F. destruct (Pos.eq_dec j i) as [->|n].
     + rewrite upd_same. discriminate.
     + rewrite upd_other by assumption. eapply inv_frame; eauto.
+  - intros j jr x E Hin. destruct (Pos.eq_dec j i) as [->|n].
+    + rewrite upd_same in E. inversion E; subst. cbn [i_watches] in Hin.
+      apply without_in in Hin. destruct Hin as [Hin _]. eapply inv_wd; eauto.
+    + rewrite upd_other in E by assumption. eapply inv_wd; eauto.
+Qed.
+
+(* ---------- wd -1 is the key of no watch ---------- *)
+Lemma view_ok_spec : forall l, view_ok l = true <-> (forall w, ~ In (-1, w) l).
+Proof.
+  intros l. unfold view_ok. rewrite forallb_forall. split.
+  - intros H w Hin. specialize (H _ Hin). cbn in H. discriminate.
+  - intros H [k x] Hin. cbn [fst]. unfold no_wd. destruct (Z.eqb_spec k (-1)); [|reflexivity].
+    subst. exfalso. eapply H; eauto.
+Qed.
+
+Lemma inv_view_ok : forall s i ir, Inv s -> itab s i = Some ir -> view_ok (i_watches ir) = true.
+Proof. intros s i ir H E. apply view_ok_spec. intros w. eapply inv_wd; eauto. Qed.
+
+Lemma route_lookup : forall l wd, view_ok l = true -> route l wd = lookup l wd.
+Proof.
+  intros l wd H. unfold route, no_wd. destruct (Z.eqb_spec wd (-1)); [|reflexivity].
+  subst. symmetry. apply lookup_none. apply view_ok_spec. assumption.
+Qed.
+
+Lemma route_some : forall l wd w, route l wd = Some w -> wd <> -1 /\ lookup l wd = Some w.
+Proof.
+  intros l wd w H. unfold route, no_wd in H. destruct (Z.eqb_spec wd (-1)); [discriminate|]. auto.
 Qed.
 
 Lemma inv_watch_lookup : forall s w wr, Inv s -> wtab s w = Some wr ->
@@ -512,6 +552,31 @@ Proof.
     split; [reflexivity|]. split.
     + intros x Hx _. destruct (Pos.eq_dec x w) as [->|n]; [apply upd_same|rewrite upd_other by assumption; assumption].
     + intros w0 E _. inversion E; subst. apply upd_same.
+Qed.
+
+(* a registration for which inotify_add_watch returns -1 returns -1 (or is skipped by the guard):
+   whatever the state *)
+Lemma do_act_reg_ok : forall s a o rc, do_act s a = (o, rc) -> reg_rc_ok (a, rc) = true.
+Proof.
+  intros s a o rc E. destruct a as [i ok|i|w i wd m|w]; try reflexivity.
+  cbn [reg_rc_ok]. unfold no_wd. destruct (Z.eqb_spec wd (-1)) as [->|]; [|reflexivity].
+  cbn [do_act] in E. destruct (allocated s w || negb (live s i)) eqn:G.
+  - inversion E; subst. reflexivity.
+  - apply orb_false_elim in G. destruct G as [_ G]. apply negb_false_iff in G.
+    unfold live in G. destruct (itab s i) as [ir|] eqn:Ei; [|discriminate].
+    unfold watch_register in E. cbn [set_watch set_wtab wtab itab] in E. rewrite upd_same in E.
+    cbn [w_inst] in E. rewrite Ei in E. change (-1 =? -1) with true in E. cbv iota in E.
+    change (-1 =? 0) with false in E. cbv iota in E. inversion E; subst. reflexivity.
+Qed.
+
+Lemma do_acts_reg_ok : forall l s o lg, do_acts s l = (o, lg) -> forallb reg_rc_ok lg = true.
+Proof.
+  induction l as [|a l IH]; intros s o lg E; cbn [do_acts] in E.
+  - inversion E; subst. reflexivity.
+  - destruct (do_act s a) as [o1 rc] eqn:Ea. pose proof (do_act_reg_ok s a o1 rc Ea) as Hr.
+    destruct o1 as [s1| | | | | | |]; try (inversion E; subst; cbn [forallb]; rewrite Hr; reflexivity).
+    destruct (do_acts s1 l) as [o' lg'] eqn:El. inversion E; subst.
+    cbn [forallb]. rewrite Hr. cbn [andb]. eapply IH; eauto.
 Qed.
 
 (* ---------- action lists ---------- *)
